@@ -78,6 +78,29 @@ def cases(tier, seed):
     for L in range(1, 5):
         for combo in itertools.product(atoms, repeat=L):
             yield {"kind": "circ", "circ": {"nq": 3, "gates": [list(g) for g in combo]}, "origin": "enum4"}
+    # the same small scope with MCX-class gates (qc.mcx: another class and another decompiler branch than CCX), both control orders
+    atoms2 = [["x", [q], None] for q in range(3)] + [["cx", [a, b], None] for a, b in itertools.permutations(range(3), 2)] + \
+             [["mcx", [a, b, t], None] for t in range(3) for a, b in itertools.permutations([c for c in range(3) if c != t], 2)]
+    for L in range(1, 4 if tier == "quick" else 5):
+        for combo in itertools.product(atoms2, repeat=L):
+            if any(g[0] == "mcx" for g in combo):
+                yield {"kind": "circ", "circ": {"nq": 3, "gates": [list(g) for g in combo]}, "origin": "enum_mcx"}
+    # directed: the same multi-controlled gate twice with one of its controls changed in between (and possibly restored after)
+    for _ in range(60 if tier == "quick" else 600):
+        nq = rng.randint(4, 6)
+        k = rng.randint(2, nq - 1)
+        wires = rng.sample(range(nq), k + 1)
+        ctl, tg = wires[:-1], wires[-1]
+        others = [q for q in range(nq) if q not in wires]
+        c0 = rng.choice(ctl)
+        mid = rng.choice([[["x", [c0], None]], [["cx", [rng.choice([q for q in range(nq) if q != c0 and q != tg] or [tg]), c0], None]], [["x", [c0], None], ["x", [rng.choice(ctl)], None]]])
+        gl = [["mcx", ctl + [tg], None]] + mid + [["mcx", ctl + [tg], None]]
+        if rng.random() < 0.6:
+            gl += list(reversed(mid))
+        if rng.random() < 0.3:
+            h = ["h", [rng.choice(others or [tg])], None]
+            gl = [h] + gl + [h]
+        yield {"kind": "circ", "circ": {"nq": nq, "gates": gl}, "origin": "mcx_twice"}
     from ..gen import programs as P
 
     pg = P.PG(rng, P.small_cfg(max_bits=4, depth=2, stmts=1))
